@@ -616,6 +616,15 @@ TARGETS = [
     dict(name="packLocatorParse", group="Open", file="src/common/pack_locator.rs", fn="parse", after=r"impl Parsable for PackLocator",
          cfg=dict(params=[("bs", "Bytes")], ret="(Bytes × Nat × Nat)", outcome=True, read_calls={"Offset::parse": "takeLE bs 8", "Size::parse": "takeLE bs 8", "Count<u32>::parse": "takeLE bs 4", "Count<u16>::parse": "takeLE bs 2", "Count<u8>::parse": "takeLE bs 1", "PackFreeData::parse": "takeBytes bs 24", "Uuid::parse": "takeBytes bs 16", "SizedOffset::parse": "takeLE bs 8"},
                   struct_as={"Self": ["uuid", "pack_size", "pack_pos"]})),
+    dict(name="packKindParse", group="Open", file="src/common/pack_kind.rs", fn="parse", after=r"impl Parsable for PackKind",
+         cfg=dict(params=[("bs", "Bytes")], ret="PackKind", outcome=True, reads={"read_u8": "takeLE bs 1"},
+                  paths={"PackKind::Manifest": "PackKind.manifest", "PackKind::Directory": "PackKind.directory",
+                         "PackKind::Content": "PackKind.content", "PackKind::Container": "PackKind.container"})),
+    dict(name="packInfoParse", group="Open", file="src/common/pack_info.rs", fn="parse", after=r"impl Parsable for PackInfo",
+         cfg=dict(params=[("bs", "Bytes")], ret="(Bytes × Nat × Nat × Nat × PackKind × Nat × Nat × Bytes)", outcome=True, checked_sub=True,
+                  reads={"read_u8": "takeLE bs 1", "read_u16": "takeLE bs 2", "skip": "takeBytes bs {0}"}, read_calls={"Offset::parse": "takeLE bs 8", "Size::parse": "takeLE bs 8", "Uuid::parse": "takeBytes bs 16", "SizedOffset::parse": "takeLE bs 8", "PackKind::parse": "packKindParse bs", "PString::parse": "takePString bs"},
+                  methods={"len": "({recv}).length"},
+                  struct_as={"Self": ["uuid", "pack_size", "check_info_pos", "pack_id", "pack_kind", "pack_group", "free_data_id", "pack_location"]})),
 ]
 
 
